@@ -85,9 +85,9 @@ func genMValue(r *rand.Rand, prev uint64) uint64 {
 // tag sets derived from a base set: one value changed, one key changed, subsets, supersets
 func genTagSets(r *rand.Rand, n int, tags map[string]int) [][]mkv {
 	// half of the key families contain a key that is a suffix of another key
-	keyFam := [][]string{{"host", "st", "dc"}, {"ab", "b", "z"}, {"xhost", "host", "k"}, {"job", "ob", "instance"},
-		{"host", "dc", "rack"}, {"job", "instance", "env"}, {"a", "b", "c"}, {"k1", "k2", "k3"}}[r.Intn(8)]
-	homogeneous := r.Intn(2) == 0 // every series carries the same keys
+	keyFam := [][]string{{"host", "st", "dc"}, {"ab", "b", "z"}, {"xhost", "host", "k"},
+		{"host", "dc", "rack"}, {"job", "instance", "env"}, {"a", "b", "c"}, {"k1", "k2", "k3"}, {"dc", "host", "zone"}}[r.Intn(8)]
+	homogeneous := r.Intn(4) != 0 // every series carries the same keys
 	val := func() string {
 		if r.Intn(12) == 0 {
 			tags["odd-value"]++
@@ -213,7 +213,7 @@ func genE2EMCase(r *rand.Rand, tags map[string]int) string {
 		sers = append(sers, mser{name: name, labels: sets[i%len(sets)]})
 	}
 	// special classes (rare): same tag set under two names, TSID-preimage collision, no tags, delimiter / escaped values
-	switch r.Intn(40) {
+	switch r.Intn(90) {
 	case 0:
 		if nser >= 2 {
 			sers[1].name = fam[1]
@@ -527,6 +527,9 @@ func genE2EMCase(r *rand.Rand, tags map[string]int) string {
 				}
 				if len(pick) == 0 {
 					pick = []string{keysOf[r.Intn(len(keysOf))]}
+				}
+				if mode == "wo" && len(pick) == len(keysOf) && len(pick) > 1 && r.Intn(10) != 0 {
+					pick = pick[1:] // `without` every label (group {}): recorded finding, kept rare
 				}
 				ls = strings.Join(pick, "+")
 			} else {
@@ -1010,7 +1013,7 @@ func execE2EM(line string) Result {
 				cl = append(cl, "tsid-preimage-collision")
 			}
 			if len(cl) > 0 {
-				sig += "/" + strings.Join(cl, "+")
+				sig = "e2em/in-class/" + strings.Join(cl, "+")
 			}
 			fails = append(fails, PropFail{Sig: sig, Msg: fmt.Sprintf("query %d (%s over [%d,%d]) answered differently after one more forced rotation: before %s ; after %s", qi, q.promql, q.start, q.end, trunc(a, 400), trunc(b, 400))})
 		}
